@@ -45,6 +45,9 @@ MsgGood(r) ==
      /\ pdu.reqid = r.id
      /\ Len(pdu.vbs) = Len(r.names)
      /\ \A i \in 1..Len(r.names) : pdu.vbs[i].name = r.names[i] /\ pdu.vbs[i].val.vt = "null"
+  /\ IF r.ver = "v3" THEN /\ d.m.usm.user = r.user /\ d.m.usm.engine = r.engine       \* every OCTET STRING field as given
+                           /\ d.m.scoped.ctxEngine = r.engine
+                      ELSE d.m.community = r.community
   /\ r.backok /\ r.backnames = r.names /\ r.backid = r.id       \* the library's own decoder returns the original
 
 (* C16.  kind "value": SnmpValue::from_ber(x \o s).  The element's extent is what its header declares. *)
